@@ -653,6 +653,11 @@ class Merger:
                 " preserved.  Please adjust your merge to target a"
                 " suitable node.", insert_at)
         else:
+            if not isinstance(lhs, CommentedMap):
+                raise MergeException(
+                    "Impossible to add Hash data to non-Hash destination.",
+                    insert_at)
+
             # Merge a dict into a dict
             self.logger.debug(
                 "Merger::_insert_dict:  Merging a dict into a dict.")
@@ -707,6 +712,10 @@ class Merger:
                 "Merger::_insert_list:  Merging a list into a set.")
             mset = CommentedSet()
             for ele in rhs:
+                if isinstance(ele, (dict, list, set, CommentedSet)):
+                    raise MergeException(
+                        "Impossible to add complex Array elements to a Set.",
+                        insert_at)
                 mset.add(ele)
             merged_data = self._merge_sets(
                 lhs, mset, insert_at, NodeCoords(rhs, None, None))
@@ -755,6 +764,11 @@ class Merger:
                 lhs, CommentedMap(merge_dict), insert_at)
             merge_performed = True
         else:
+            if not isinstance(lhs, CommentedSet):
+                raise MergeException(
+                    "Impossible to add Set data to non-Set destination.",
+                    insert_at)
+
             self.logger.debug(
                 "Merger::_insert_set:  Merging a set into a set.")
             merged_data = self._merge_sets(lhs, rhs, insert_at, NodeCoords(
